@@ -54,6 +54,10 @@ class Literal(Exception):
         return "{%d}" % self.value
 
 
+class LiteralBytes(bytes):
+    """An argument already encoded as a literal ({size+} CRLF octets)."""
+
+
 def authentication_required(meth):
     """Simple class method decorator.
 
@@ -236,11 +240,15 @@ class Client:
         """
         ret = []
         for a in args:
+            if isinstance(a, LiteralBytes):
+                ret += [a]
+                continue
             if isinstance(a, bytes):
-                if self.__size_expr.match(a):
-                    ret += [a]
+                if b"\r" in a or b"\n" in a or b"\0" in a:
+                    ret += [b"{%d+}%s%s" % (len(a), CRLF, a)]
                 else:
-                    ret += [b'"' + a + b'"']
+                    quoted = a.replace(b"\\", b"\\\\").replace(b'"', b'\\"')
+                    ret += [b'"' + quoted + b'"']
                 continue
             ret += [bytes(str(a).encode("utf-8"))]
         return ret
@@ -255,7 +263,7 @@ class Client:
         :return: transformed script as bytes
         """
         bcontent: bytes = content.encode("utf-8")
-        return b"{%d+}%s%s" % (len(bcontent), CRLF, bcontent)
+        return LiteralBytes(b"{%d+}%s%s" % (len(bcontent), CRLF, bcontent))
 
     def __send_command(
         self,
